@@ -1,0 +1,238 @@
+//go:build verif
+// +build verif
+
+package txmgr
+
+// Byte-level access for the verification harness (/verif, engine `codec`): thin exported wrappers around the
+// unexported key / value builders and readers of this package. No logic of their own.
+
+import (
+	"time"
+
+	"github.com/massnetorg/mass-core/database"
+	"github.com/massnetorg/mass-core/massutil"
+	"github.com/massnetorg/mass-core/wire"
+	mwdb "massnet.org/mass-wallet/masswallet/db"
+	"massnet.org/mass-wallet/masswallet/utils"
+)
+
+func VerifCanonicalOutPoint(h *wire.Hash, i uint32) []byte { return canonicalOutPoint(h, i) }
+
+func VerifCanonicalUnspentKey(w string, h *wire.Hash, i uint32) []byte {
+	return canonicalUnspentKey(w, h, i)
+}
+
+func VerifReadCanonicalUnspentKey(k []byte) (wire.OutPoint, error) {
+	var op wire.OutPoint
+	err := readCanonicalUnspentKey(k, &op)
+	return op, err
+}
+
+func VerifExistsRawUnspent(ns mwdb.Bucket, k []byte) ([]byte, error) { return existsRawUnspent(ns, k) }
+
+func VerifKeyCredit(h *wire.Hash, i uint32, height uint64, bh wire.Hash) []byte {
+	return keyCredit(h, i, &BlockMeta{Height: height, Hash: bh})
+}
+
+func VerifKeyDebit(h *wire.Hash, i uint32, height uint64, bh wire.Hash) []byte {
+	return keyDebit(h, i, &BlockMeta{Height: height, Hash: bh})
+}
+
+func VerifReadRawCreditKey(k []byte) (op wire.OutPoint, height uint64, bh wire.Hash, err error) {
+	c := &credit{block: &BlockMeta{}}
+	err = readRawCreditKey(k, c)
+	return c.outPoint, c.block.Height, c.block.Hash, err
+}
+
+func VerifReadUnminedCreditKey(k []byte) (wire.OutPoint, error) {
+	c := &credit{}
+	err := readUnminedCreditKey(k, c)
+	return c.outPoint, err
+}
+
+func VerifValueUnspentCredit(amount massutil.Amount, change bool, class UtxoClass, maturity uint32, scriptHash []byte) ([]byte, error) {
+	return valueUnspentCredit(&credit{amount: amount, maturity: maturity, scriptHash: scriptHash, flags: UtxoFlags{Change: change, Class: class}})
+}
+
+func VerifValueUnminedCredit(amount massutil.Amount, change bool, maturity uint32, scriptHash []byte, ps utils.PkScript) ([]byte, error) {
+	return valueUnminedCredit(amount, change, maturity, scriptHash, ps)
+}
+
+func VerifReadCreditValue(v []byte) (amount massutil.Amount, flags UtxoFlags, maturity uint32, scriptHash []byte, err error) {
+	c := &credit{}
+	err = readCreditValue(v, c)
+	return c.amount, c.flags, c.maturity, c.scriptHash, err
+}
+
+func VerifSpendCredit(ns mwdb.Bucket, credKey []byte, h wire.Hash, height uint64, bh wire.Hash, i uint32) (massutil.Amount, error) {
+	return spendCredit(ns, credKey, &indexedIncidence{incidence: incidence{txHash: h, block: BlockMeta{Height: height, Hash: bh}}, index: i})
+}
+
+func VerifUnspendRawCredit(ns mwdb.Bucket, credKey []byte) error {
+	_, err := unspendRawCredit(ns, credKey)
+	return err
+}
+
+func VerifReadCreditSpender(v []byte) []byte { return readCreditSpender(v) }
+
+func VerifValueUnminedCreditFromMined(v []byte) ([]byte, error) { return valueUnminedCreditFromMined(v) }
+
+func VerifFetchRawCreditAmountSpent(v []byte) (massutil.Amount, bool, error) {
+	return fetchRawCreditAmountSpent(v)
+}
+
+func VerifFetchRawCreditMaturityScriptHash(v []byte) (uint32, []byte, error) {
+	return fetchRawCreditMaturityScriptHash(v)
+}
+
+func VerifFetchTxRecordKeyFromRawCreditKey(k []byte) ([]byte, error) {
+	return fetchTxRecordKeyFromRawCreditKey(k)
+}
+
+func VerifFetchNsUnspentValueFromRawCredit(k []byte) ([]byte, error) {
+	return fetchNsUnspentValueFromRawCredit(k)
+}
+
+func VerifPutMinedBalance(ns mwdb.Bucket, w string, amt massutil.Amount) error {
+	return putMinedBalance(ns, w, amt)
+}
+
+func VerifPutDebit(ns mwdb.Bucket, h *wire.Hash, i uint32, amount massutil.Amount, height uint64, bh wire.Hash, credKey []byte) error {
+	return putDebit(ns, h, i, amount, &BlockMeta{Height: height, Hash: bh}, credKey)
+}
+
+func VerifExistsDebit(ns mwdb.Bucket, h *wire.Hash, i uint32, height uint64, bh wire.Hash) (k, credKey []byte, err error) {
+	return existsDebit(ns, h, i, &BlockMeta{Height: height, Hash: bh})
+}
+
+func VerifValueUnspent(height uint64, bh wire.Hash) []byte {
+	return valueUnspent(&BlockMeta{Height: height, Hash: bh})
+}
+
+func VerifReadBlockOfUnspent(v []byte) (uint64, wire.Hash, error) {
+	var b BlockMeta
+	err := readBlockOfUnspent(v, &b)
+	return b.Height, b.Hash, err
+}
+
+func VerifKeyAddressRecord(w string, class uint16, addr string) ([]byte, error) {
+	return keyAddressRecord(&addressRecord{walletId: w, encodeAddress: addr, addressClass: class})
+}
+
+func VerifValueAddressRecord(height uint64) []byte {
+	return valueAddressRecord(&addressRecord{blockHeight: height})
+}
+
+func VerifReadAddressHeight(v []byte) uint64 { return readAddressHeight(v) }
+
+func VerifFetchAddressesByWalletId(ns mwdb.Bucket, w string) ([]*AddressDetail, error) {
+	return fetchAddressesByWalletId(ns, w)
+}
+
+func VerifKeyGameHistory(w string, binding, withdrawn bool, h wire.Hash, height uint64, vout uint32) []byte {
+	return keyGameHistory(&gameHistory{walletId: w, txhash: h, vout: vout, withdrawn: withdrawn, isBinding: binding, blockHeight: height})
+}
+
+func VerifKeyUnminedGameHistory(w string, binding, withdrawn bool, h wire.Hash, height uint64, vout uint32) []byte {
+	return keyUnminedGameHistory(&gameHistory{walletId: w, txhash: h, vout: vout, withdrawn: withdrawn, isBinding: binding, blockHeight: height})
+}
+
+func VerifValueGameHistory() []byte { return valueGameHistory(&gameHistory{}) }
+
+func VerifReadGameHistory(unmined bool, k []byte) (w string, binding, withdrawn bool, h wire.Hash, height uint64, vout uint32, err error) {
+	var g gameHistory
+	err = readGameHistory(unmined, k, nil, &g)
+	return g.walletId, g.isBinding, g.withdrawn, g.txhash, g.blockHeight, g.vout, err
+}
+
+func VerifGetRawGameHistoryByWalletId(ns mwdb.Bucket, w string, gt byte, excludeWithdrawn bool) ([]*mwdb.Entry, error) {
+	return getRawGameHistoryByWalletId(ns, w, gameType(gt), excludeWithdrawn)
+}
+
+func VerifDeleteByPrefix(ns mwdb.Bucket, prefix []byte) error { return deleteByPrefix(ns, prefix) }
+
+func VerifGetCreditsByTxHash(ns mwdb.Bucket, h *wire.Hash) ([]*mwdb.Entry, error) {
+	return getCreditsByTxHash(ns, h)
+}
+
+func VerifGetCreditsByTxHashHeight(ns mwdb.Bucket, h *wire.Hash, height uint64) (map[uint32]*mwdb.Entry, error) {
+	return getCreditsByTxHashHeight(ns, h, height)
+}
+
+func VerifGetLastCreditByTxHashIndexTillHeight(ns mwdb.Bucket, h *wire.Hash, i uint32, height uint64) (*mwdb.Entry, error) {
+	return getLastCreditByTxHashIndexTillHeight(ns, h, i, height)
+}
+
+func VerifValueUnmined(tx *wire.MsgTx, received time.Time) ([]byte, error) {
+	return valueUnmined(&TxRecord{MsgTx: *tx, Received: received})
+}
+
+func VerifReadRawUnmined(v []byte) (*wire.MsgTx, time.Time, error) {
+	var rec TxRecord
+	err := readRawUnmined(v, &rec)
+	return &rec.MsgTx, rec.Received, err
+}
+
+func VerifKeyTxRecord(h *wire.Hash, height uint64, bh wire.Hash) []byte {
+	return keyTxRecord(h, &BlockMeta{Height: height, Hash: bh})
+}
+
+func VerifPutTxRecord(ns mwdb.Bucket, h wire.Hash, height uint64, bh wire.Hash, loc *database.BlockLoc, txLoc *wire.TxLoc) error {
+	return putTxRecord(ns, &TxRecord{Hash: h, TxLoc: txLoc}, &BlockMeta{Height: height, Hash: bh, Loc: loc})
+}
+
+func VerifReadTxRecordLoc(v []byte) (*database.BlockLoc, *wire.TxLoc, error) { return readTxRecordLoc(v) }
+
+func VerifReadTxRecordKey(k []byte) (uint64, []byte, error) { return readTxRecordKey(k) }
+
+func VerifFetchRawTxRecordByTxHashHeight(ns mwdb.Bucket, h *wire.Hash, height uint64) ([]byte, error) {
+	return fetchRawTxRecordByTxHashHeight(ns, h, height)
+}
+
+func VerifFetchRawTxRecordByHashHeight(ns mwdb.Bucket, h *wire.Hash, height uint64) (*mwdb.Entry, error) {
+	return fetchRawTxRecordByHashHeight(ns, h, height)
+}
+
+func VerifFetchLatestRawTxRecordOfHash(ns mwdb.Bucket, h *wire.Hash) (*mwdb.Entry, error) {
+	return fetchLatestRawTxRecordOfHash(ns, h)
+}
+
+func VerifKeyBlockRecord(height uint64) []byte { return keyBlockRecord(height) }
+
+func VerifUpdateBlockRecord(ns mwdb.Bucket, height uint64, bh wire.Hash, ts time.Time, txs []wire.Hash) error {
+	return updateBlockRecord(ns, &BlockMeta{Height: height, Hash: bh, Timestamp: ts}, txs)
+}
+
+func VerifReadRawBlockRecord(k, v []byte) (height uint64, bh wire.Hash, ts time.Time, txs []wire.Hash, err error) {
+	var b blockRecord
+	err = readRawBlockRecord(k, v, &b)
+	return b.Height, b.Hash, b.Timestamp, b.transactions, err
+}
+
+func VerifReadBlockHashFromValue(v []byte) (wire.Hash, error) { return readBlockHashFromValue(v) }
+
+func VerifPutSyncedBucket(ns mwdb.Bucket, height uint64, bh wire.Hash, ts time.Time) error {
+	return putSyncedBucket(ns, &BlockMeta{Height: height, Hash: bh, Timestamp: ts})
+}
+
+func VerifFetchSyncedBlock(ns mwdb.Bucket, height uint64) (*BlockMeta, error) {
+	return fetchSyncedBlock(ns, height)
+}
+
+func VerifPutSyncedTo(ns mwdb.Bucket, height uint64, bh wire.Hash, ts time.Time) error {
+	return putSyncedTo(ns, &BlockMeta{Height: height, Hash: bh, Timestamp: ts})
+}
+
+func VerifSyncedToName() string { return syncedToName }
+
+func VerifReadWalletStatus(k, v []byte) (WalletStatus, error) {
+	var ws WalletStatus
+	err := readWalletStatus(k, v, &ws)
+	return ws, err
+}
+
+// VerifPutWalletStatusIn runs PutWalletStatus against the given bucket meta.
+func VerifPutWalletStatusIn(tx mwdb.DBTransaction, meta mwdb.BucketMeta, ws *WalletStatus) error {
+	s := &SyncStore{bucketMeta: &StoreBucketMeta{nsWalletStatus: meta}}
+	return s.PutWalletStatus(tx, ws)
+}
